@@ -9,6 +9,7 @@ VirtualLoop.time() is virtual.  Nothing ever blocks in select(): the harness dri
 from __future__ import annotations
 
 import asyncio
+import os
 import heapq
 import threading
 from asyncio import events
@@ -46,7 +47,21 @@ class VirtualLoop(asyncio.SelectorEventLoop):
             self._drop_cancelled_head()
         if self.detect_deadlock and not self._ready and not self._scheduled:
             # nothing is runnable and no timer is pending: every task waits on something nobody will ever complete
-            raise Deadlock('event loop idle: all tasks are blocked')
+            where = ''
+            if os.environ.get('VERIF_DEADLOCK_STACKS'):
+                import io
+                buf = io.StringIO()
+                for t in asyncio.all_tasks(self):
+                    if not t.done():
+                        buf.write(f'--- {t.get_name()}\n')
+                        c = t.get_coro()
+                        while c is not None:     # a suspended task exposes one frame only: walk the await chain ourselves
+                            fr = getattr(c, 'cr_frame', None) or getattr(c, 'gi_frame', None) or getattr(c, 'ag_frame', None)
+                            if fr is not None:
+                                buf.write(f'    {fr.f_code.co_filename}:{fr.f_lineno} {fr.f_code.co_name}\n')
+                            c = getattr(c, 'cr_await', None) or getattr(c, 'gi_yieldfrom', None) or getattr(c, 'ag_await', None)
+                where = '\n' + buf.getvalue()
+            raise Deadlock('event loop idle: all tasks are blocked' + where)
         if self.max_time is not None and self._vtime > self.max_time:
             raise Deadlock('virtual clock ran away: some task keeps sleeping and retrying forever')
         if self._auto_jump and not self._ready:
